@@ -7,6 +7,7 @@
 //!          | 3 rows
 //!          | 4 rows                      (Kill: rows of a copy of the store files taken while open)
 //!          | 5 ...as 1...                (Alloc whose reply is lost)
+//!          | 6 ...as 1...                (Alloc while another connection holds the store's write lock)
 //!
 //! The real code is `erbium::dhcp::pool::Pool::allocate_address` (via 0) or
 //! `erbium::dhcp::handle_pkt` with a DISCOVER (via 1) / REQUEST (via 2) packet.
@@ -40,6 +41,9 @@ pub enum Ev {
         /// the reply is produced but never reaches the client (crash before the send, packet
         /// loss, a duplicate ACK the client discards): same execution, event token 5
         lost: bool,
+        /// the step runs while ANOTHER connection to the store file holds the write lock
+        /// (BEGIN IMMEDIATE ... ROLLBACK around it): event token 6
+        locked: bool,
     },
     Tick(u32),
     Restart,
@@ -169,11 +173,14 @@ impl World {
                 self.rows(t);
                 stats.bump("ev.restart");
             }
-            Ev::Alloc { via, cidmode, reqmode, alt, client, req, pool: addrs, tmin, tmax, lost } => {
+            Ev::Alloc { via, cidmode, reqmode, alt, client, req, pool: addrs, tmin, tmax, lost, locked } => {
                 if *lost {
                     stats.bump("ev.alloc.reply-lost");
                 }
-                t.n(if *lost { 5 } else { 1 }).n(*via as u64).n(*cidmode as u64).n(*reqmode as u64).n(*alt as u64);
+                if *locked {
+                    stats.bump("ev.alloc.store-locked");
+                }
+                t.n(if *locked { 6 } else if *lost { 5 } else { 1 }).n(*via as u64).n(*cidmode as u64).n(*reqmode as u64).n(*alt as u64);
                 t.bytes(client);
                 match req {
                     None => {
@@ -189,6 +196,16 @@ impl World {
                 }
                 t.n(*tmin).n(*tmax);
                 let set: pool::PoolAddresses = addrs.iter().map(|a| Ipv4Addr::from(*a)).collect();
+                let blocker = if *locked {
+                    assert!(!self.path.as_os_str().is_empty(), "a locked step needs a file store");
+                    let c = rusqlite::Connection::open(&self.path).expect("second connection");
+                    c.execute_batch("BEGIN IMMEDIATE").expect("take the write lock");
+                    // do not wait 5 s (rusqlite's default busy timeout) for a lock that will not go away
+                    self.pool.as_ref().unwrap().verif_conn().busy_timeout(std::time::Duration::from_millis(0)).expect("busy_timeout");
+                    Some(c)
+                } else {
+                    None
+                };
                 let p = self.pool.as_mut().unwrap();
                 let mut opt51: Option<u64> = None;
                 let t_before = wall();
@@ -242,6 +259,11 @@ impl World {
                     }
                 };
                 let t_after = wall();
+                if let Some(c) = blocker {
+                    c.execute_batch("ROLLBACK").expect("release the write lock");
+                    drop(c);
+                    self.pool.as_ref().unwrap().verif_conn().busy_timeout(std::time::Duration::from_millis(5000)).expect("busy_timeout");
+                }
                 t.n(t_before + self.shift).n(t_after + self.shift);
                 if t_after != t_before {
                     stats.bump("clock.second-boundary-inside-call");
@@ -330,10 +352,19 @@ impl Drop for World {
 /// client, chaddr = a fixed address (which is also the id of a chaddr-only client).
 /// reqmode 0: option 50 = req; 1: ciaddr = req (REQUEST); 2: REQUEST with ciaddr = req and
 /// option 50 = alt (ciaddr wins); 3: DISCOVER with ciaddr = alt and option 50 = req
-/// (DISCOVER ignores ciaddr).  reqmode + 4: additionally a policy that tries to set
+/// (DISCOVER ignores ciaddr).  reqmode >> 3: option 51 suggested by the client (SUGGESTED).
+/// reqmode + 4: additionally a policy that tries to set
 /// option 51 itself and a parameter list asking for it.
+/// lease times a client may suggest in option 51 of its own DISCOVER/REQUEST
+/// (reqmode >> 3 = 1 + index; 0 = the option is absent); the server ignores it
+pub const SUGGESTED: [u32; 10] = [0, 1, 60, 299, 300, 301, 86400, 86401, 1_000_000, u32::MAX];
+
 fn mk_request(via: u8, cidmode: u8, reqmode: u8, alt: u32, client: &[u8], req: Option<u32>) -> dhcp::DHCPRequest {
     let mut options = dhcppkt::DhcpOptions::default();
+    let sug = (reqmode >> 3) as usize;
+    if sug >= 1 && sug <= SUGGESTED.len() {
+        options.other.insert(dhcppkt::OPTION_LEASETIME, SUGGESTED[sug - 1].to_be_bytes().to_vec());
+    }
     let mt = if via == 1 { dhcppkt::DHCPDISCOVER } else { dhcppkt::DHCPREQUEST };
     options = options.set_option(&dhcppkt::OPTION_MSGTYPE, &mt);
     options.other.insert(dhcppkt::OPTION_PARAMLIST, vec![1, 3, 6, 51, 58, 59]);
@@ -426,6 +457,7 @@ pub struct Gen {
     last_client: usize,
     lost_pct: u64,
     kill_pct: u64,
+    locked_pct: u64,
 }
 
 fn subset(r: &mut Rng, from: &[u32], k: usize) -> Vec<u32> {
@@ -516,6 +548,7 @@ impl Gen {
             last_client: 0,
             lost_pct,
             kill_pct: 3,
+            locked_pct: *r.pick(&[0u64, 0, 0, 10]),
         }
     }
 
@@ -658,11 +691,13 @@ impl Gen {
             } else {
                 *r.pick(&[0u8, 0, 3])
             };
-            (cidmode, m + if r.chance(1, 4) { 4 } else { 0 }, alt)
+            let sug = if r.chance(2, 5) { (1 + r.below(SUGGESTED.len() as u64) as u8) << 3 } else { 0 };
+            (cidmode, m + if r.chance(1, 4) { 4 } else { 0 } + sug, alt)
         };
         // through handle_pkt a chaddr-only client needs its id as chaddr: fine for any length
-        let lost = r.below(100) < self.lost_pct;
-        Some(Ev::Alloc { via, cidmode, reqmode, alt, client, req, pool: self.cur_pool.clone(), tmin, tmax, lost })
+        let locked = r.below(100) < self.locked_pct;
+        let lost = !locked && r.below(100) < self.lost_pct;
+        Some(Ev::Alloc { via, cidmode, reqmode, alt, client, req, pool: self.cur_pool.clone(), tmin, tmax, lost, locked })
     }
 }
 
@@ -726,7 +761,7 @@ pub fn parse_case(toks: &[u64]) -> Option<Vec<Ev>> {
     for _ in 0..n {
         let kind = c.n()?;
         match kind {
-            1 | 5 => {
+            1 | 5 | 6 => {
                 let via = c.n()? as u8;
                 let cidmode = c.n()? as u8;
                 let reqmode = c.n()? as u8;
@@ -760,7 +795,7 @@ pub fn parse_case(toks: &[u64]) -> Option<Vec<Ev>> {
                     }
                 }
                 c.skip_rows()?;
-                evs.push(Ev::Alloc { via, cidmode, reqmode, alt, client, req, pool, tmin, tmax, lost: kind == 5 });
+                evs.push(Ev::Alloc { via, cidmode, reqmode, alt, client, req, pool, tmin, tmax, lost: kind == 5, locked: kind == 6 });
             }
             2 => evs.push(Ev::Tick(c.n()? as u32)),
             3 => {
@@ -804,10 +839,17 @@ pub fn fixed_histories() -> Vec<Vec<Ev>> {
         tmin: 300,
         tmax: 86400,
         lost: false,
+        locked: false,
     };
     let lose = |e: Ev| match e {
         Ev::Alloc { via, cidmode, reqmode, alt, client, req, pool, tmin, tmax, .. } => {
-            Ev::Alloc { via, cidmode, reqmode, alt, client, req, pool, tmin, tmax, lost: true }
+            Ev::Alloc { via, cidmode, reqmode, alt, client, req, pool, tmin, tmax, lost: true, locked: false }
+        }
+        e => e,
+    };
+    let lock = |e: Ev| match e {
+        Ev::Alloc { via, cidmode, reqmode, alt, client, req, pool, tmin, tmax, .. } => {
+            Ev::Alloc { via, cidmode, reqmode, alt, client, req, pool, tmin, tmax, lost: false, locked: true }
         }
         e => e,
     };
@@ -830,6 +872,14 @@ pub fn fixed_histories() -> Vec<Vec<Ev>> {
             a(b"c1", None, &[x, z]),
             Ev::Restart,
             a(b"c2", Some(x), &[x, z]),
+        ],
+        // the store is locked by another connection: a new client, then a renewal
+        vec![
+            lock(a(b"c1", None, &[x])),
+            a(b"c1", None, &[x]),
+            Ev::Tick(100),
+            lock(a(b"c1", None, &[x])),
+            a(b"c2", None, &[x, z]),
         ],
         // observation O1 (design/C01.md): a renewal 1 s after the previous one shortens the
         // record (450 s told at 150, 300 s at 151); 301 s later the address is free for c2
@@ -898,6 +948,7 @@ fn small_alphabet(full: bool) -> Vec<Ev> {
                     tmin: 300,
                     tmax: 86400,
                     lost: false,
+                    locked: false,
                 });
             }
         }
